@@ -34,6 +34,25 @@ CLAIMED = {
    note=TRUST + "Cli.v is a hand-written model of __main__.py tied by running generated command lines through the model and the real CLI in subprocesses (exit status, stdout, bytes of a pre-existing output file).",
    technique="Coq proof over an argument/effect-trace machine with generated option table + subprocess correspondence",
    ref="5/C16"),
+ "C02": dict(
+   text="Theorem C02_single_line: for EVERY expression tree (all node kinds, f-strings nested to any depth) whose identifiers and "
+        "number/bytes reprs contain no line break, the text of the project's own unparser (model tied by string correspondence, "
+        "escape table regenerated from the code) contains no line break - by structural induction with a finite vm_compute check of "
+        "the 0..0x2FF escape table and the surrogate block. That the returned text is exactly one expression is decided by compile() "
+        "on every output of generated programs and stripped standard-library modules under all 8 configurations (support); the "
+        "ast.unparse path is CPython's code and is only observed. One known finding (walrus in a loop header).",
+   note=TRUST + "Until the C03 round-trip theorem covers it, 'compiles as one expression' rests on CPython's compile() on the explored outputs.",
+   technique="Coq proof by structural induction over all expression trees + finite table check (vm_compute) + string/AST correspondence + compile() oracle",
+   ref="5/C02"),
+ "C04": dict(
+   text="Theorems C04_str_codec (for every code point list and both quotes, decode(escape s) = s under a reference decoder of Python's "
+        "escape rules), C04_escape_single_line, C04_fstring_text_codec (brace doubling), C04_unparse_single_line (whole unparser, any "
+        "nesting). Finite parts (generated 0..0x2FF x 2 escape table, 2048 surrogates) by vm_compute lifted with forallb_forall; the "
+        "rule above the table is checked against code samples at build time. Structure of f-strings (conversions, specs) and numeric "
+        "literals are decided by reparsing with CPython (support).",
+   note=TRUST + "StrLit.decode is a hand-written reference decoder validated against ast.literal_eval each run; float/complex/bytes texts are CPython's repr (opaque).",
+   technique="Coq proof: per-code-point lemma from a vm_compute-checked table, lifted by induction to all strings; structural induction for the one-line theorem; string correspondence + reparse oracle",
+   ref="5/C04"),
 }
 PENDING_REASON = "not yet built in this round: model/theorem under construction (see DESIGN.md section 8 build order); not claimed until its minimum is proved and tied"
 ALL = [f"C{i:02d}" for i in range(1, 18)]
